@@ -1,11 +1,11 @@
-// counterexamples for harness c12::c12_quantile_single_f64_n3 (property C12); replay: ./check C12 --replay <this file>
-// features: c12
+// counterexamples for harness c08::c08_quantile_single_valid_opti32_n1 (property C08); replay: ./check C08 --replay <this file>
+// features: c08
 #![allow(unused_imports)]
-use crate::c12::*;
+use crate::c08::*;
 
-/// Test generated for harness `c12::c12_quantile_single_f64_n3` 
+/// Test generated for harness `c08::c08_quantile_single_valid_opti32_n1` 
 ///
-/// Check for `assertion`: ""quantile is null only when there is no valid element""
+/// Check for `assertion`: ""vquantile of a single valid element is unchanged by an inserted null""
 ///
 /// # Warning
 ///
@@ -19,27 +19,25 @@ use crate::c12::*;
 /// logic.
 
 #[test]
-fn kani_concrete_playback_c12_quantile_single_f64_n3_12188278836370867198() {
+fn kani_concrete_playback_c08_quantile_single_valid_opti32_n1_12317269618123150893() {
     let concrete_vals: Vec<Vec<u8>> = vec![
         // 0
-        vec![0],
-        // 0
-        vec![0],
+        vec![0, 0, 0, 0],
         // 1
         vec![1],
-        // -1
-        vec![255, 255, 255, 255],
+        // 0ul
+        vec![0, 0, 0, 0, 0, 0, 0, 0],
         // 2ul
         vec![2, 0, 0, 0, 0, 0, 0, 0],
-        // 3
-        vec![3],
+        // 0
+        vec![0],
     ];
-    kani::concrete_playback_run(concrete_vals, c12_quantile_single_f64_n3);
+    kani::concrete_playback_run(concrete_vals, c08_quantile_single_valid_opti32_n1);
 }
 
-/// Test generated for harness `c12::c12_quantile_single_f64_n3` 
+/// Test generated for harness `c08::c08_quantile_single_valid_opti32_n1` 
 ///
-/// Check for `cover`: "q above one half"
+/// Check for `cover`: "the null is inserted after the single valid element"
 ///
 /// # Warning
 ///
@@ -53,20 +51,18 @@ fn kani_concrete_playback_c12_quantile_single_f64_n3_12188278836370867198() {
 /// logic.
 
 #[test]
-fn kani_concrete_playback_c12_quantile_single_f64_n3_4194104367913364134() {
+fn kani_concrete_playback_c08_quantile_single_valid_opti32_n1_18003917507952099783() {
     let concrete_vals: Vec<Vec<u8>> = vec![
+        // 0
+        vec![0, 0, 0, 0],
         // 1
         vec![1],
-        // -2
-        vec![254, 255, 255, 255],
+        // 1ul
+        vec![1, 0, 0, 0, 0, 0, 0, 0],
+        // 2ul
+        vec![2, 0, 0, 0, 0, 0, 0, 0],
         // 0
         vec![0],
-        // 0
-        vec![0],
-        // 4ul
-        vec![4, 0, 0, 0, 0, 0, 0, 0],
-        // 1
-        vec![1],
     ];
-    kani::concrete_playback_run(concrete_vals, c12_quantile_single_f64_n3);
+    kani::concrete_playback_run(concrete_vals, c08_quantile_single_valid_opti32_n1);
 }
